@@ -18,7 +18,7 @@ from ..gen import c01_misc as MI
 from ..gen import c01_rs as RS
 
 PID = "C01"
-COQ_HEADER = ("From Coq Require Import List NArith ZArith.\nFrom SK Require Import lib.Tok lib.LGraph model.C01_Model model.C02_Model model.C01_Opts model.C01_String model.C01_Attrs model.C01_CleanWc model.C01_Rsmi model.C01_Nbrs model.C01_Conv model.C01_G2M model.C01_Rewrite.\nFrom Coq Require Import String.\n"
+COQ_HEADER = ("From Coq Require Import List NArith ZArith.\nFrom SK Require Import lib.Tok lib.LGraph model.C01_Model model.C02_Model model.C01_Opts model.C01_String model.C01_Attrs model.C01_CleanWc model.C01_Rsmi model.C01_Nbrs model.C01_Conv model.C01_G2M model.C01_Rewrite model.C01_DecRaw.\nFrom Coq Require Import String.\n"
               "Import ListNotations.\nOpen Scope Z_scope.\n")
 SHARD = 400
 IMPL_TIMEOUT = 1500
@@ -58,7 +58,11 @@ EXPLANATION = ("Exhaustive sub-space (both tiers): ALL pairs (G,H) on a shared n
                "rsmi.split('>>') on adversarial strings, rsmi_to_graph / rsmi_to_its / its_to_rsmi under every option - drop_non_aam, sanitize, "
                "use_index_as_atom_map, core, explicit_hydrogen (before core), writer sanitize / explicit_hydrogen / clean_wildcards - with "
                "unparsable / unsanitisable sides, wrong numbers of '>>', sides the writer refuses: value, None and exception are told apart); "
-               "the 'neighbors' lists are computed by the model from the bonds in every reaction-string case.")
+               "the 'neighbors' lists are computed by the model from the bonds in every reaction-string case; one MolToGraph converter object "
+               "through 4-9 transform / transform_store / .graph calls with recurring Mol objects (conv-hist); GraphToMol on graphs with attributes "
+               "deleted at random (g2m-abs); its_decompose on ITS-shaped graphs with typesGH / product tuples / orders missing (dec-raw); RDKit "
+               "readings of re-rooted / fragment-shuffled sides against the executable rewriting test (rw-premise); explicit-hydrogen rewritings with "
+               "parentless hydrogen species as spectators (str-exph-lone).")
 TRUSTED_BASE = [
     "Coq 8.16.1 kernel + vm_compute (no native_compute); stdlib only",
     "hand-written models coq/model/C01_Model.v, C01_Opts.v (ITSConstruction options), C01_String.v (MolToGraph.transform, implicit_hydrogen, "
@@ -96,7 +100,7 @@ TESTED_NOT_PROVED = [
     "case with default options, and the str-* oracle requires exactly one '>>' in what its_to_rsmi writes",
     "implicit_hydrogen keeps every non-hydrogen atom's total H on graphs whose hydrogens have one bond: oracle on every ih case (theorem C01_implicit_hydrogen for all well-formed graphs)",
 ]
-LEVEL_TEXT = ("Machine-checked proof (Coq, 42 theorems) over an executable model of ITSConstruction.construct/ITSGraph and its_decompose: for all well-formed "
+LEVEL_TEXT = ("Machine-checked proof (Coq, 45 theorems) over an executable model of ITSConstruction.construct/ITSGraph and its_decompose: for all well-formed "
               "reactant/product graphs on the same node set with positive bond orders, decompose(construct(G,H)) returns exactly G and H "
               "(atoms, element, aromaticity, hydrogen count, charge, atom_map = node id, every bond with its order) - for every value of "
               "ignore_aromaticity, balance_its, store and attributes_defaults; the ITS has exactly the union of the nodes and bonds, every bond "
@@ -112,9 +116,15 @@ LEVEL_TEXT = ("Machine-checked proof (Coq, 42 theorems) over an executable model
               "chem_converter are modelled on whole strings (split at '>>' proved inverse to the f'{r}>>{p}' assembly, every failure mode as value / "
               "None / exception, option order explicit_hydrogen-before-core, clean_wildcards) and the string round trip is proved for the whole "
               "reaction string relative to the RDKit contract plus 'MolToSmiles never emits >'; the neighbors attribute (sorted neighbour symbols) "
-              "is computed by the model and proved sorted, a permutation of the bonded atoms' symbols and independent of RDKit's enumeration order.")
-LEVEL_NOTE = ("Defect found and repaired in this round: rsmi_to_its(explicit_hydrogen=True) double-counted hydrogens on the product side "
-              "(its_to_rsmi returned None for 346/346 corpus reactions), /repo commit 61e730e, regress corpus + known_findings.d/C01.json. "
+              "is computed by the model and proved sorted, a permutation of the bonded atoms' symbols and independent of RDKit's enumeration order; "
+              "the property's quantifier is proved inside the model: construct / decompose / the writer's input are extensional, invariant under "
+              "re-rooting and fragment reordering of the SMILES (hypothesis tested on real RDKit readings by a proved-sound executable check) and "
+              "reversal swaps the halves; the MolToGraph object is a state machine whose .graph is the last successful transform_store; GraphToMol "
+              "and its_decompose are modelled with every absent-attribute branch.")
+LEVEL_NOTE = ("Two defects found and repaired: rsmi_to_its(explicit_hydrogen=True) double-counted hydrogens on the product side "
+              "(its_to_rsmi returned None for 346/346 corpus reactions), /repo commit 61e730e; implicit_hydrogen deleted hydrogens without a "
+              "non-hydrogen neighbour (a lone H+ / H / H- spectator vanished from both sides of its_to_rsmi's output whenever another hydrogen was in "
+              "the reaction centre), /repo commit 3ba7a77; regress corpus + known_findings.d/C01.json for both, the model follows the repaired code. "
               "RDKit (parse, sanitise, write) is a named premise (contract R1 of theorem C01_rsmi_pipeline), monitored by an independent-reading "
               "oracle on the corpora, not verified; the string-level theorem covers reactions without explicit hydrogen atoms, reactions with "
               "explicit hydrogens under the default writer is proved relative to a four-premise contract (C01_rsmi_pipeline_hydrogens). "
@@ -155,6 +165,8 @@ def impl(case):
         return T.obs_g2m(case["G"], case["ibo"], case["uhc"])
     if k == "rw-premise":
         return RS.obs_rw_premise(case)
+    if k == "dec-raw":
+        return RS.obs_dec_raw(case)
     if k == "api-misc":
         return MI.obs(case)
     if k == "attrs":
@@ -210,6 +222,8 @@ def coq_case(case):
             return RS.coq_g2m_abs(case)
         if k == "rw-premise":
             return RS.coq_rw_premise(case)
+        if k == "dec-raw":
+            return RS.coq_dec_raw(case)
         if k == "api-misc":
             return MI.coq(case)
         if k == "attrs":
@@ -436,10 +450,29 @@ def ih_clauses(gjson, pres):
     return fails
 
 
+def ih_balance(gjson, pres):
+    """theorem C01_hydrogen_balance on the implementation: on a graph in which no hydrogen is bonded to two non-hydrogen atoms,
+    implicit_hydrogen keeps (number of hydrogen atoms) + (sum of the hcounts of the other atoms), whatever the preserve set and
+    whatever the atom maps (H-H bonds, lone hydrogens, duplicate maps included)"""
+    from synkit.Graph.Hyrogen._misc import implicit_hydrogen
+    g = E.to_nx(gjson)
+    el = {n: d["element"] for n, d in g.nodes(data=True)}
+    if any(el[n] == "H" and sum(1 for m in g[n] if el[m] != "H") > 1 for n in g.nodes):
+        return []
+
+    def total(X):
+        return sum(1 if d["element"] == "H" else d["hcount"] for _, d in X.nodes(data=True))
+    before = total(g)
+    after = total(implicit_hydrogen(E.to_nx(gjson), set(pres)))
+    if before != after:
+        return [dict(clause="implicit-h-balance", detail="hydrogen atoms + hcounts: %d before, %d after (preserve %r)" % (before, after, sorted(pres)))]
+    return []
+
+
 def oracle(case):
     if case.get("kind") == "ih":
-        return ih_clauses(case["G"], case["pres"])
-    if case.get("kind") in ("m2g", "g2r", "g2m", "cwc", "rs-split", "conv-hist", "g2m-abs", "rw-premise"):
+        return (ih_clauses(case["G"], case["pres"]) + ih_balance(case["G"], case["pres"]))[:3]
+    if case.get("kind") in ("m2g", "g2r", "g2m", "cwc", "rs-split", "conv-hist", "g2m-abs", "rw-premise", "dec-raw"):
         return []
     if case.get("kind") == "rs-str":
         return RS.oracle_rs(case, R.well_formed)
@@ -513,7 +546,7 @@ def neighbours(case, rng):
 def nontrivial(case, obs):
     if case.get("kind") == "ih":
         return bool(case["pres"]) and any(a["element"] == "H" for _, a in case["G"]["nodes"])
-    if case.get("kind") in ("m2g", "g2r", "g2m", "api-misc", "attrs", "cwc", "rs-split", "rs-str", "conv-hist", "g2m-abs", "rw-premise"):
+    if case.get("kind") in ("m2g", "g2r", "g2m", "api-misc", "attrs", "cwc", "rs-split", "rs-str", "conv-hist", "g2m-abs", "rw-premise", "dec-raw"):
         return False
     if case.get("kind", "").startswith("hist-"):
         return True
@@ -554,7 +587,7 @@ def distribution(cases, obss):
             if k.startswith("hist-"):
                 extra["history_steps"] = extra.get("history_steps", 0) + len(c["steps"])
                 continue
-            if k in ("g2r", "g2m", "api-misc", "attrs", "cwc", "rs-split", "rs-str", "conv-hist", "g2m-abs", "rw-premise"):
+            if k in ("g2r", "g2m", "api-misc", "attrs", "cwc", "rs-split", "rs-str", "conv-hist", "g2m-abs", "rw-premise", "dec-raw"):
                 if k == "rw-premise":
                     extra["rw_premise_holds"] = extra.get("rw_premise_holds", 0) + (o == [True, True] or o == [1, 1])
                 if k == "rs-str":
@@ -1064,6 +1097,7 @@ def gen_histories(rsmi_cases, rng, n_str, n_pair):
     extra += RS.gen_conv(rs, rng, max(30, n_str // 2))
     extra += RS.gen_g2m_abs(gen_ih(rng, max(40, n_pair // 3)), rng)
     extra += RS.gen_rw_premise(rs, rng, max(40, n_str))
+    extra += RS.gen_dec_raw(rng, max(120, n_pair))
     return HI.gen_hist_str(rs, rng, n_str) + HI.gen_hist_pair(pairs, rng, n_pair, _opts) + extra
 
 
